@@ -34,8 +34,15 @@ def case_strategy(combo_list):
     types = sorted(by_type)
     stratified = st.sampled_from(types).flatmap(lambda t: st.sampled_from(by_type[t]))
     # half of the cases uniformly over all combinations (weights the many elemental fcc/bcc/hcp crystals), half by type
-    return st.fixed_dictionaries({"combo": st.one_of(st.sampled_from(combo_list), stratified), "pres": gm.presentations()})
+    return st.fixed_dictionaries({"combo": st.one_of(st.sampled_from(combo_list), stratified), "pres": gm.presentations(), "gap": gaps()})
+
+
+def gaps():
+    """vacuum between a z-periodic slab and its image: None = generous (>= 13 A), else thin (3.5 - 9 A, kept only if the slab is
+    clearly not bonded to its image and the cell is still higher than 2*max_cell_size)"""
+    from vlib.gen import cells as gc
+    return st.one_of(st.none(), st.none(), gc.ffloat(3.5, 9.0))
 
 
 def item_strategy(combo):
-    return st.fixed_dictionaries({"combo": st.just(combo), "pres": gm.presentations()})
+    return st.fixed_dictionaries({"combo": st.just(combo), "pres": gm.presentations(), "gap": gaps()})
